@@ -192,6 +192,22 @@ def run(ctx, config='rel-all'):
             else:
                 ctx.violation('R5', 'Box::' + name, name, 'Box::%s must move its value into one arena allocation and hold that pointer' % name, b.get('span'))
     ctx.floor('R5', n5, 6, 'ownership-transfer functions of Box')
+    # ---- R6 views: Deref / DerefMut / Borrow / BorrowMut / AsRef / AsMut of a Box give exactly the boxed value
+    PT = ('load', ('fld', ('deref', ('param', 1)), 'boxed::Box.0'), 0)
+    n6 = 0
+    for b in db.fn_bodies():
+        m = b['meta']
+        tr = m.get('impl_trait') or ''
+        if b['kind'] != 'assoc_fn' or not (m.get('impl_adt') or '').endswith('boxed::Box') or not any(tr.endswith(x) for x in ('ops::deref::Deref', 'ops::deref::DerefMut', 'borrow::Borrow', 'borrow::BorrowMut', 'convert::AsRef', 'convert::AsMut')):
+            continue
+        I, r = arena.run_fn(ctx, b['id'], config)
+        n6 += 1
+        fn = arena.short(b['id'])
+        if r.ret == PT:
+            ctx.ok('R6', '%s returns the boxed value itself' % fn, 'return term')
+        else:
+            ctx.violation('R6', fn, 'view', '%s must return a reference to exactly the boxed value; it returns %s' % (fn, show(r.ret)[:80] if r.ret is not None else None), b.get('span'))
+    ctx.floor('R6', n6, 6, 'view impls of Box')
     bd = [b for b in db.fn_bodies() if (b['meta'].get('impl_trait') or '').endswith('ops::drop::Drop') and (b['meta'].get('impl_adt') or '').endswith('boxed::Box')]
     for b in bd:
         I, r = arena.run_fn(ctx, b['id'], config)
